@@ -36,8 +36,8 @@ theorem call_armSimC_of_armSim (clob : Nat → Nat → BitVec 64) (i : Insn) (h 
   intro c tgt haddr pc n a b retAddr ais σ env s s' _ _ harm hchk hb hrip hrel hlog _ hpc hex
   unfold jitExecC at hex
   rw [if_neg hn] at hex
-  obtain ⟨k, σ', hst, hrel', htop, hl, hmis, hsl, hend⟩ := h c tgt haddr pc n a b retAddr ais σ env s s' harm hchk hb hrip hrel hpc hex
+  obtain ⟨k, σ', hst, hrel', htop, hl, hmis, hsl, hfr, hkept, hend⟩ := h c tgt haddr pc n a b retAddr ais σ env s s' harm hchk hb hrip hrel hpc hex
   exact ⟨k, σ', hst, hrel', call_logRel_congr σ σ' s s' hlog hl hsl, htop, hmis,
-    call_stackBase_eq c retAddr k σ σ' s s' hst hrel hrel', hend⟩
+    call_stackBase_eq c retAddr k σ σ' s s' hst hrel hrel', hfr, hkept, hend⟩
 
 end Rbpf.JitSim
